@@ -103,21 +103,31 @@ UnitsOf(gi, i, j) == IF AllUnits THEN 1..3 ELSE {((gi + i + 2 * j) % 3) + 1}    
 \* three types per combination (one of them always unsigned), the shapely kinds one; all nine types occur for every geometry
 TypesOf(gi, i, j) == IF Geoms[gi].type \in ClosedKinds THEN LET q == ((gi + i + j) % 3) + 1 IN {q, q + 3, q + 6}
                      ELSE {((2 * gi + 3 * i + j) % 9) + 1}
-Descriptors == UNION {UNION {{[gi |-> gi, i |-> i, j |-> j, neg |-> 0, u |-> u, ty |-> q] : u \in UnitsOf(gi, i, j), q \in TypesOf(gi, i, j)} :
+\* tiny buffers around zero (Buffer!TinyNames): each on the time axis with a positive frequency buffer, on the frequency
+\* axis with a positive time buffer, and on both; two runs per case
+TinyRuns == LET N == <<"-1e-9", "-1e-10", "-1e-12", "-5e-324", "-0.0">> IN
+    [q \in 1..15 |-> LET n == N[((q - 1) % 5) + 1] IN
+        CASE q <= 5  -> [b |-> <<0, 16>>, e |-> <<n, "">>]
+          [] q <= 10 -> [b |-> <<2, 0>>,  e |-> <<"", n>>]
+          [] OTHER   -> [b |-> <<0, 0>>,  e |-> <<n, n>>]]
+TinyOf(d, run) == TinyRuns[IF run = 1 THEN 2 * d.tn - 1 ELSE Min(2 * d.tn, 15)]
+Descriptors == UNION {UNION {{[gi |-> gi, i |-> i, j |-> j, neg |-> 0, tn |-> 0, u |-> u, ty |-> q] : u \in UnitsOf(gi, i, j), q \in TypesOf(gi, i, j)} :
                                  i \in 1..NT(Geoms[gi]), j \in 1..NF(Geoms[gi])} : gi \in 1..Len(Geoms)}
-          \cup {[gi |-> gi, i |-> 1, j |-> 1, neg |-> n, u |-> (n % 3) + 1, ty |-> <<1, 2, 5>>[((gi + n) % 3) + 1]] : gi \in 1..Len(Geoms), n \in 1..3}
-B1(d) == IF d.neg = 0 THEN <<BT[d.i], BF[d.j]>> ELSE NegPairs[d.neg][1]
-B2(d) == IF d.neg = 0 THEN <<BT[UpT(Geoms[d.gi], d.i)], BF[UpF(d.j)]>> ELSE NegPairs[d.neg][2]
+          \cup {[gi |-> gi, i |-> 1, j |-> 1, neg |-> n, u |-> (n % 3) + 1, ty |-> <<1, 2, 5>>[((gi + n) % 3) + 1], tn |-> 0] : gi \in 1..Len(Geoms), n \in 1..3}
+          \cup {[gi |-> gi, i |-> 1, j |-> 1, neg |-> 0, tn |-> q, u |-> (q % 3) + 1, ty |-> 2] : gi \in 1..Len(Geoms), q \in 1..8}
+B1(d) == IF d.tn > 0 THEN TinyOf(d, 1).b ELSE IF d.neg = 0 THEN <<BT[d.i], BF[d.j]>> ELSE NegPairs[d.neg][1]
+B2(d) == IF d.tn > 0 THEN TinyOf(d, 2).b ELSE IF d.neg = 0 THEN <<BT[UpT(Geoms[d.gi], d.i)], BF[UpF(d.j)]>> ELSE NegPairs[d.neg][2]
 Concrete(d) == [g |-> Geoms[d.gi], b1 |-> B1(d), b2 |-> B2(d), probes |-> Probes(Geoms[d.gi]), u |-> d.u,
+                e1 |-> IF d.tn > 0 THEN TinyOf(d, 1).e ELSE NoTiny, e2 |-> IF d.tn > 0 THEN TinyOf(d, 2).e ELSE NoTiny,
                 t1 |-> ArgTypes(BufTypes[d.ty], B1(d), d.u), t2 |-> ArgTypes(BufTypes[d.ty], B2(d), d.u)]
 
 Init == /\ c \in {d \in Descriptors : (d.gi * 7 + d.i * 3 + d.j + d.neg) % GeomStride = 0}
         /\ ph = "in" /\ res = <<>>
 \* the specified outcome where Req is a function: the closed form, or the rejection
-Outcome(g, b) == IF Negative(b) THEN <<"raise:ValueError">>
+Outcome(g, b, e) == IF NegativeRun(b, e) THEN <<"raise:ValueError">>
                  ELSE IF g.type \in ClosedKinds THEN <<BufClosed(g, b).type, BufClosed(g, b).coordinates>>
                  ELSE <<"relational">>
-Compute == ph = "in" /\ ph' = "out" /\ res' = <<Outcome(Geoms[c.gi], B1(c)), Outcome(Geoms[c.gi], B2(c))>> /\ c' = c
+Compute == ph = "in" /\ ph' = "out" /\ res' = <<Outcome(Geoms[c.gi], B1(c), Concrete(c).e1), Outcome(Geoms[c.gi], B2(c), Concrete(c).e2)>> /\ c' = c
 Next == Compute
 vars == <<c, ph, res>>
 Spec == Init /\ [][Next]_vars
@@ -126,7 +136,7 @@ Export == ph = "out" => PrintT(<<"CASE", ToJson(Concrete(c))>>)
 
 (* ---- laws of the specification, for every geometry of the catalogue and ALL ordered buffer pairs ---- *)
 \* (they depend on the geometry only: evaluated once per geometry, in the state after Compute)
-LawAt == ph = "out" /\ c.i = 1 /\ c.j = 1 /\ c.neg = 0 /\ c.u = (CHOOSE u \in UnitsOf(c.gi, 1, 1) : TRUE)
+LawAt == ph = "out" /\ c.i = 1 /\ c.j = 1 /\ c.neg = 0 /\ c.tn = 0 /\ c.u = (CHOOSE u \in UnitsOf(c.gi, 1, 1) : TRUE)
          /\ c.ty = (CHOOSE q \in TypesOf(c.gi, 1, 1) : TRUE)
 GG == Geoms[c.gi]
 PP == Range(Probes(GG))
@@ -173,6 +183,13 @@ LawLimbs == (LawAt /\ c.gi = 1) => \A a \in {0, 1, 5, FMAXS} : \A b \in {0, 1, 4
     /\ LEq(LRatDown(a * CapD, CapD), LInt(a))
     /\ LLe(LRatDown(a * CapD + 1, CapD), LRatDown(a * CapD + 2, CapD)) /\ ~LLe(LRatDown(a * CapD + 2, CapD), LRatDown(a * CapD + 1, CapD))
 \* which catalogue lines fold back: exactly the Z, the hook, the loop and the multi line with a backward stroke
+\* the tiny magnitudes: four are negative, -0.0 is not; each occurs on the time axis, on the frequency axis and on both
+LawTiny == (LawAt /\ c.gi = 1) =>
+    /\ NegativeRun(<<0, 16>>, <<"-5e-324", "">>) /\ NegativeRun(<<2, 0>>, <<"", "-1e-12">>) /\ ~NegativeRun(<<0, 0>>, <<"-0.0", "-0.0">>)
+    /\ \A n \in TinyNames : \E q \in 1..15 : TinyRuns[q].e = <<n, "">>
+    /\ \A n \in TinyNames : \E q \in 1..15 : TinyRuns[q].e = <<"", n>>
+    /\ \A n \in TinyNames : \E q \in 1..15 : TinyRuns[q].e = <<n, n>>
+    /\ {IF r = 1 THEN 2 * t - 1 ELSE Min(2 * t, 15) : t \in 1..8, r \in 1..2} = 1..15
 LawFolded == (LawAt /\ c.gi = 1) =>
     /\ Cardinality({gi \in 1..Len(Geoms) : Folded(Geoms[gi])}) = 4
     /\ FoldedPath(<<<<5, 10>>, <<5, 30>>, <<5, 20>>, <<9, 20>>>>) /\ ~FoldedPath(<<<<5, 10>>, <<5, 30>>, <<5, 40>>, <<9, 20>>>>)
